@@ -379,6 +379,7 @@ int main(int argc, char** argv) {
   uint64_t transitions = 0, states = 0;
   for (size_t i = 0; i < INITS.size(); i++) {
     St s;
+    { Hist h0; h0.init = INITS[i]; set_case(hist_json(h0, nullptr)); }  // a crash while building an initial state is attributed to it
     if (!make_init(INITS[i], s)) continue;
     Obs ou = observe(s.u), oa = observe(s.a);
     Key128 k = key128(state_key(ou, oa));
